@@ -417,6 +417,15 @@ pub fn check_c18(ctx: &mut Ctx, input: &[u8]) {
                     if let Err(e) = u.try_as::<$T>() {
                         out.push(("Unknown::try_as", $name, Some(<$T>::PACKET_TYPE), e, None));
                     }
+                    if let Ok(u2) = Unknown::parse(b) {
+                        let p2 = Packet::from(u2);
+                        if let Err(e) = p2.try_as::<$T>() {
+                            out.push(("Packet::from(Unknown).try_as", $name, Some(<$T>::PACKET_TYPE), e, None));
+                        }
+                        if let Err(e) = <$T>::try_from(p2) {
+                            out.push(("TryFrom<Packet::from(Unknown)>", $name, Some(<$T>::PACKET_TYPE), e, None));
+                        }
+                    }
                 }};
             }
             uconv!(SenderReport, "SenderReport");
@@ -611,6 +620,31 @@ pub fn check_c12(ctx: &mut Ctx, input: &[u8]) {
         conv!(App, "App");
         conv!(TransportFeedback, "TransportFeedback");
         conv!(PayloadFeedback, "PayloadFeedback");
+        // an unknown packet may also carry a *known* type number (built with `Packet::from(unknown)`):
+        // converting it "returns exactly what the typed parser returns on the same bytes"
+        if Unknown::parse(b).is_ok() {
+            macro_rules! wrapped {
+                ($T:ty, $name:literal) => {{
+                    let want = <$T>::parse(b);
+                    let p2 = Packet::from(Unknown::parse(b).expect("parsed before"));
+                    let a = p2.try_as::<$T>();
+                    let c = <$T>::try_from(&p2);
+                    let owned = <$T>::try_from(Packet::from(Unknown::parse(b).expect("parsed before")));
+                    for (how, got) in [("Packet::from(Unknown).try_as", &a), ("TryFrom<&Packet::from(Unknown)>", &c), ("TryFrom<Packet::from(Unknown)>", &owned)] {
+                        if *got != want {
+                            return Err(("unknown-conversion".into(), format!("Packet::from(Unknown)->{}", $name), format!("{how}: expected {want:?}, got {got:?}")));
+                        }
+                    }
+                }};
+            }
+            wrapped!(SenderReport, "Sr");
+            wrapped!(ReceiverReport, "Rr");
+            wrapped!(Sdes, "Sdes");
+            wrapped!(Bye, "Bye");
+            wrapped!(App, "App");
+            wrapped!(TransportFeedback, "TransportFeedback");
+            wrapped!(PayloadFeedback, "PayloadFeedback");
+        }
         Ok(())
     });
     // classes for the floor: (source variant, target) cells are all exercised whenever the generic parser accepts
@@ -1232,10 +1266,32 @@ pub fn check_c09_cfg(ctx: &mut Ctx, cfg: &crate::cfg::Cfg) {
         return; // SDES is not a fixed-layout parser (C10's job)
     }
     let Some(bytes) = enc::enc(cfg) else { return };
+    check_c09_image(ctx, cfg, &bytes);
+    // RFC 3550 6.4.1 / 6.4.2: a sender or receiver report may carry a profile-specific extension after its
+    // report blocks (before any padding); the fixed fields and the blocks read back the same
+    if let crate::cfg::Cfg::Sr { .. } | crate::cfg::Cfg::Rr { .. } = cfg {
+        let mut bare = cfg.clone();
+        bare.set_padding(0);
+        if let Some(mut b) = enc::enc(&bare) {
+            let words = 1 + (crate::ctx::hash_of(cfg) % 3) as usize;
+            let fill = if crate::ctx::hash_of(cfg) % 5 == 0 { 0u8 } else { 0xe7 };
+            b.extend(std::iter::repeat(fill).take(4 * words));
+            gb::fix_len(&mut b);
+            let b = if cfg.padding() > 0 { enc::pad(&b, cfg.padding()) } else { b };
+            if b.len() <= enc::MAX_PACKET_BYTES {
+                ctx.class("c09:report-with-profile-extension");
+                check_c09_image(ctx, cfg, &b);
+            }
+        }
+    }
+}
+
+/// `bytes` is a well-formed image of `cfg`: it must be accepted and read back equal.
+fn check_c09_image(ctx: &mut Ctx, cfg: &crate::cfg::Cfg, bytes: &[u8]) {
     ctx.eval();
     let kind = cfg.kind_name();
-    let case = || crate::ctx::cfg_case("c09-cfg", cfg, crate::drive::How::default());
-    let data = exact(&bytes);
+    let case = || crate::ctx::cfg_case("c09-cfg", cfg, crate::drive::How::default()).set("image", hex(&bytes[..bytes.len().min(256)]));
+    let data = exact(bytes);
     if let crate::cfg::Cfg::Unknown { .. } = cfg {
         match call(|| Unknown::parse(&data).map(|u| u.data() == &data[..])) {
             Ok(Ok(true)) => ctx.class("c09:enc-accepted:unknown"),
